@@ -8,10 +8,17 @@
    clean x        = the property's exception: no NaN (Float value or Float type bound) and no Sensitive inside
 
    Universe: see the head of Model/Keys.v (what is outside is checked on the implementation only).
-   Hidden state (lazily cached types, the hash index, nil optional parts) does not exist in the model:
-   that clause of the property is checked on the implementation only (harness clause hidden-state). *)
+   Hidden state.  The key index of a Hash (the map from hash key to entry position that Get, IncludesKey,
+   Equals go through) is modelled as explicit state in Model/KeysIndex.v:
+   hobj = (entries, index : None | Some map)   wrap_hash es = WrapHash (index nil, built on first use)
+   unique_entries es = uniqueEntries / WrapHashFromArray / Hash.new (index pre-built while compacting)
+   hobj_get / hobj_includes_key / hobj_equals = Get / IncludesKey / Equals through the index, with the runtime
+   fault of entries[pos] explicit (LFault / None);  hobj_ok h = the index is nil or what valueIndex would build.
+   The other hidden state (lazily cached inferred types, nil optional parts of types) does not exist in the
+   model: for it the clause is checked on the implementation only (harness clauses hidden-state, own-entries). *)
 From Coq Require Import ZArith NArith Bool List.
-From PcoreV Require Import Model.Base Model.Keys Proofs.KeysOrder Proofs.KeysCode Proofs.KeysTypes Proofs.KeysProofs.
+From PcoreV Require Import Model.Base Model.Keys Model.KeysIndex Proofs.KeysOrder Proofs.KeysCode Proofs.KeysTypes Proofs.KeysProofs
+  Proofs.KeysIndexProofs.
 Import ListNotations.
 Open Scope Z_scope.
 
@@ -111,6 +118,79 @@ Qed.
 Print Assumptions C07_object_type_key_by_identity_refuted.
 
 (* ------------------------------------------------------------------------------------------ *)
+(* Hidden state and construction route: the key index of a Hash (Model/KeysIndex.v) *)
+
+(* the index that WrapHashFromArray / Hash.new hands to the new Hash is the one that valueIndex would build
+   from the entries of that Hash (so it does not matter that it was pre-built) *)
+Theorem C07_from_array_index_is_the_lazy_index : forall es,
+  h_index (unique_entries es) = Some (build_index (h_entries (unique_entries es))).
+Proof. exact unique_entries_index. Qed.
+Print Assumptions C07_from_array_index_is_the_lazy_index.
+
+(* every constructor establishes the invariant of the index field *)
+Theorem C07_constructors_index_ok : forall es, hobj_ok (wrap_hash es) /\ hobj_ok (unique_entries es).
+Proof. intros es. split; [apply wrap_hash_ok|apply unique_entries_ok]. Qed.
+Print Assumptions C07_constructors_index_ok.
+
+(* the Hash made from an array has one entry per key, holds only given pairs and satisfies wf_value *)
+Theorem C07_from_array_one_entry_per_key : forall es,
+  NoDup (map (fun e => vkey (fst e)) (h_entries (unique_entries es))).
+Proof. exact unique_entries_keys_distinct. Qed.
+Print Assumptions C07_from_array_one_entry_per_key.
+
+Theorem C07_from_array_wf : forall es,
+  (forall k v, In (k, v) es -> wf_value k = true /\ wf_value v = true /\ keyable k = true) ->
+  wf_value (VHash (h_entries (unique_entries es))) = true.
+Proof. exact unique_entries_wf. Qed.
+Print Assumptions C07_from_array_wf.
+
+(* Get, IncludesKey, Equals answer what the stateless model answers on the entries, whatever the state
+   of the index (nil, built lazily, pre-built), and never fault *)
+Theorem C07_get_independent_of_index_state : forall h q, hobj_ok h ->
+  hobj_get h q = match hash_get (h_entries h) q with Some v => LFound v | None => LMissing end.
+Proof. exact hobj_get_stateless. Qed.
+Print Assumptions C07_get_independent_of_index_state.
+
+Theorem C07_includes_key_independent_of_index_state : forall h q, hobj_ok h ->
+  hobj_includes_key h q = hash_includes_key (h_entries h) q.
+Proof. exact hobj_includes_key_stateless. Qed.
+Print Assumptions C07_includes_key_independent_of_index_state.
+
+Theorem C07_equals_independent_of_index_state : forall h o, hobj_ok h -> hobj_ok o ->
+  NoDup (map (fun e => vkey (fst e)) (h_entries h)) ->
+  hobj_equals h o = Some (veq (VHash (h_entries h)) (VHash (h_entries o))).
+Proof. exact hobj_equals_stateless. Qed.
+Print Assumptions C07_equals_independent_of_index_state.
+
+(* the Hash made from an array of pairs: the last pair of a key wins ... *)
+Theorem C07_from_array_last_pair_wins : forall es q,
+  hobj_get (unique_entries es) q = match hash_get es q with Some v => LFound v | None => LMissing end.
+Proof. exact from_array_last_pair_wins. Qed.
+Print Assumptions C07_from_array_last_pair_wins.
+
+(* ... it finds a key if and only if it contains an equal key, and then returns that entry's value ... *)
+Theorem C07_from_array_finds_iff_equal_key_present : forall es q v,
+  (forall k w, In (k, w) es -> wf_value k = true /\ wf_value w = true /\ keyable k = true) ->
+  wf_value q = true -> (forall k w, In (k, w) es -> clean k = true) -> clean q = true ->
+  (hobj_get (unique_entries es) q = LFound v <->
+   exists k, In (k, v) (h_entries (unique_entries es)) /\ veq k q = true).
+Proof. exact from_array_get_iff. Qed.
+Print Assumptions C07_from_array_finds_iff_equal_key_present.
+
+(* ... and it is equal, whichever operand receives the call, to the Hash wrapped directly around the same
+   entries (and to itself), with the same hash key: Equals does not depend on the construction route *)
+Theorem C07_from_array_equals_directly_built : forall es,
+  (forall k w, In (k, w) es -> wf_value k = true /\ wf_value w = true /\ keyable k = true) ->
+  (forall k w, In (k, w) es -> clean k = true /\ clean w = true) ->
+  let h := unique_entries es in
+  hobj_equals h (wrap_hash (h_entries h)) = Some true /\
+  hobj_equals (wrap_hash (h_entries h)) h = Some true /\
+  hobj_equals h h = Some true /\
+  hobj_key h = hobj_key (wrap_hash (h_entries h)).
+Proof. exact from_array_equals_direct. Qed.
+Print Assumptions C07_from_array_equals_directly_built.
+
+(* ------------------------------------------------------------------------------------------ *)
 (* Non-vacuity: the hypotheses are satisfiable and the model computes non-trivial cases. *)
 
 Definition ex_a : list N := [97]%N.
@@ -160,4 +240,29 @@ Example C07_ex_get_unique :
   hash_get [(VFloat 0, VInt 7)] (VInt 0) = None /\
   unique [VInt 1; VFloat 0; VInt 1; VFloat 0x8000000000000000; VStr ex_a; VEntry (VStr ex_a) (VInt 1); VArr [VStr ex_a; VInt 1]]
     = [VInt 1; VFloat 0; VStr ex_a; VEntry (VStr ex_a) (VInt 1)].
+Proof. repeat split; vm_compute; reflexivity. Qed.
+
+(* the hash made from [[a,1],[a,2],[b,3],[c,4]] (a repeated key followed by new keys): entries {a=>2,b=>3,c=>4},
+   the pre-built index maps a,b,c to 0,1,2; every key is found with its own value, a missing key is not *)
+Definition ex_c : list N := [99]%N.
+Definition ex_pairs : list (value * value) :=
+  [(VStr ex_a, VInt 1); (VStr ex_a, VInt 2); (VStr ex_b, VInt 3); (VStr ex_c, VInt 4)].
+Example C07_ex_from_array :
+  hash_from_array [VArr [VStr ex_a; VInt 1]; VEntry (VStr ex_a) (VInt 2); VArr [VStr ex_b; VInt 3]; VArr [VStr ex_c; VInt 4]]
+    = Some (unique_entries ex_pairs) /\
+  h_entries (unique_entries ex_pairs) = [(VStr ex_a, VInt 2); (VStr ex_b, VInt 3); (VStr ex_c, VInt 4)] /\
+  h_index (unique_entries ex_pairs) = Some [(vkey (VStr ex_a), 0%nat); (vkey (VStr ex_b), 1%nat); (vkey (VStr ex_c), 2%nat)] /\
+  hobj_get (unique_entries ex_pairs) (VStr ex_b) = LFound (VInt 3) /\
+  hobj_get (unique_entries ex_pairs) (VStr ex_c) = LFound (VInt 4) /\
+  hobj_get (unique_entries ex_pairs) (VStr []) = LMissing /\
+  hobj_equals (unique_entries ex_pairs) (wrap_hash [(VStr ex_c, VInt 4); (VStr ex_b, VInt 3); (VStr ex_a, VInt 2)]) = Some true /\
+  hobj_equals (wrap_hash [(VStr ex_c, VInt 4); (VStr ex_b, VInt 3); (VStr ex_a, VInt 2)]) (unique_entries ex_pairs) = Some true.
+Proof. repeat split; vm_compute; reflexivity. Qed.
+
+(* the fault is a real possibility of the modelled code: an index that is not the lazy one (here: positions in
+   the input, as a wrong uniqueEntries would record them) makes Get fault and Equals fault *)
+Example C07_ex_bad_index_faults :
+  let h := {| h_entries := [(VStr ex_a, VInt 2); (VStr ex_b, VInt 3); (VStr ex_c, VInt 4)];
+              h_index := Some [(vkey (VStr ex_a), 0%nat); (vkey (VStr ex_b), 2%nat); (vkey (VStr ex_c), 3%nat)] |} in
+  hobj_get h (VStr ex_b) = LFound (VInt 4) /\ hobj_get h (VStr ex_c) = LFault /\ hobj_equals h h = None.
 Proof. repeat split; vm_compute; reflexivity. Qed.
